@@ -253,7 +253,7 @@ Proof. vm_compute. reflexivity. Qed.
 
 (* factory examples *)
 Definition J (id : N) : job := mkJob id 0 3 true.
-Definition ex_fc : fcfg := mkFcfg RQueuer QDefault (Some (1, Oldest)) None 2.
+Definition ex_fc : fcfg := mkFcfg RQueuer QDefault (Some (1, Oldest)) None 2 [].
 (* two workers busy, limit 1, oldest mode: jobs 3 and 4 are shed as 4 and 5 arrive *)
 Example ex_factory_oldest :
   factory_run ex_fc [FDispatch (J 1); FDispatch (J 2); FDispatch (J 3); FDispatch (J 4); FDispatch (J 5); FQuery]
@@ -264,7 +264,7 @@ Proof. vm_compute. reflexivity. Qed.
 (* the F7 scenario: both busy, shrink to 1, the draining worker 1 is killed, worker 0 finishes:
    the pool converges to [0] (on the tree before fix 5f6a017 the real factory kept [0; 1]) *)
 Example ex_F7_scenario :
-  factory_run (mkFcfg RRoundRobin QDefault None None 2)
+  factory_run (mkFcfg RRoundRobin QDefault None None 2 [])
     [FDispatch (J 1); FDispatch (J 2); FResize 1; FKill 1; FFinishAll; FQuery]
   = [[EHook HStarted]; [EAccept 1; EStart 1 1 1]; [EAccept 2; EStart 2 0 1]; []; [ELost 1]; [EEnd 2];
      [EQuery (Some 0) (Some 1) (Some 0) [0]]].
@@ -284,7 +284,7 @@ Example ex_oracle_accepts_model :
 Proof. vm_compute. reflexivity. Qed.
 (* the oracle rejects the trace the unfixed tree produced for the F7 scenario (live = [0; 1]) *)
 Example ex_oracle_rejects_F7_trace :
-  ck_resize (mkFcfg RRoundRobin QDefault None None 2)
+  ck_resize (mkFcfg RRoundRobin QDefault None None 2 [])
     [([FSettle], [EHook HStarted]);
      ([FDispatch (J 1); FDispatch (J 2); FSettle], [EStart 1 1 1; EStart 2 0 1; EAccept 1; EAccept 2]);
      ([FResize 1; FSettle], []); ([FKill 1; FSettle], [ELost 1]); ([FFinishAll; FSettle], [EEnd 2]);
